@@ -19,6 +19,8 @@ are directly an anchor / positive look-around (R-REPEAT-LIT, C09).
 """
 from __future__ import annotations
 
+from ..absdom import pattern_of
+
 import concurrent.futures as cf
 import re
 
@@ -163,7 +165,7 @@ def leaves(tier):
 
 
 def _text(o):
-    return o.fields.get("_Pregex__pattern") if isinstance(o, Obj) else None
+    return pattern_of(o) if isinstance(o, Obj) else None
 
 
 _MODELS = {}
